@@ -39,6 +39,15 @@ impl Syms {
                 ar.put_fn(a, u32::from_str_radix(m, 16).unwrap());
                 continue;
             }
+            if let Some(v) = d.strip_prefix("J=") {
+                // a forwarding stub: jmp rel32 to <dest> (an alias / tail-call wrapper / linker veneer)
+                let (a, t) = v.split_once('/').unwrap();
+                let (a, t) = (u64::from_str_radix(a, 16).unwrap(), u64::from_str_radix(t, 16).unwrap());
+                let ar = arenas.iter().find(|x| a >= x.base && a + 5 <= x.base + x.len as u64).expect("J= outside arenas");
+                let _ = ar;
+                unsafe { let p = a as *mut u8; *p = 0xE9; std::ptr::copy_nonoverlapping(((t.wrapping_sub(a + 5)) as u32).to_le_bytes().as_ptr(), p.add(1), 4); }
+                continue;
+            }
             if d == "S" { for a in &arenas { a.seal(); } continue; }
             if let Some(v) = d.strip_prefix("W=") {
                 let t: Vec<u64> = v.split('/').map(|x| u64::from_str_radix(x, 16).unwrap()).collect();
@@ -210,8 +219,12 @@ pub fn run_history(line: &str, with_diff: bool) -> String {
     for (li, ops) in lifetimes.iter().enumerate() {
         interpose::RECORD.store(true, SeqCst);
         let mut body_out = String::new();
+        let (wtx, wrx) = std::sync::mpsc::channel();
         let r = catch_unwind(AssertUnwindSafe(|| {
             let mut inj = InjectorPP::new();
+            // a thread that is ALREADY waiting for the guard while this lifetime runs (and possibly unwinds)
+            std::thread::spawn(move || { let i = InjectorPP::new(); drop(i); let _ = wtx.send(()); });
+            std::thread::sleep(std::time::Duration::from_micros(200));
             for (oi, op) in ops.iter().enumerate() {
                 let res = do_op(&mut inj, &syms, op);
                 boundary(&mut body_out, id, &format!("L{li} OP{oi}"), &res, &mut ev_from, &syms, &snap, with_diff);
@@ -224,7 +237,8 @@ pub fn run_history(line: &str, with_diff: bool) -> String {
         // the process-wide guard must be usable from another thread afterwards
         let (tx, rx) = std::sync::mpsc::channel();
         std::thread::spawn(move || { let i = InjectorPP::new(); drop(i); let _ = tx.send(()); });
-        let lock = if rx.recv_timeout(std::time::Duration::from_secs(3)).is_ok() { "ok" } else { "timeout" };
+        let waiter_ok = wrx.recv_timeout(std::time::Duration::from_secs(3)).is_ok();
+        let lock = if !waiter_ok { "waiter-failed" } else if rx.recv_timeout(std::time::Duration::from_secs(3)).is_ok() { "ok" } else { "timeout" };
         let res = format!("{res};panics={};lock={lock}", PANICS.swap(0, SeqCst));
         boundary(&mut out, id, &format!("L{li} EXIT"), &res, &mut ev_from, &syms, &snap, true);
     }
